@@ -19,13 +19,18 @@ type Scenario struct {
 	Ops    []M      `json:"ops"`
 }
 
+// returned: every handler started for connection id c (it may have been re-opened) has returned
 func (l *L2) returned(c int) bool {
+	starts, rets := 0, 0
 	for _, e := range l.Events() {
+		if e.Conn == c && e.Ev == "start" {
+			starts++
+		}
 		if e.Conn == c && e.Ev == "return" {
-			return true
+			rets++
 		}
 	}
-	return false
+	return starts > 0 && rets >= starts
 }
 
 func (l *L2) waitReturn(c int, d time.Duration) bool {
